@@ -44,7 +44,7 @@ package ketoapi
 //@ func (*RelationTuple).FromProto
 //@   props C13 C18 C08
 //@   requires[C13] proto-present: proto != nil
-//@   requires[C13] subject-present: proto.Subject != nil && wfwiresubject(proto.Subject)
+//@   requires wfwiresubject(proto.Subject)
 //@   modifies nothing
 //@   ensures result != nil && fresh(result)
 
